@@ -58,7 +58,11 @@ TRow == /\ IsEvent("row") /\ Row(Ev.cells) /\ UNCHANGED snap0
         /\ Note(<< <<"row.generator_text", CellsTextOK(Ev.cells)>>,
                    <<"row.node_per_cell", Len(Ev.obs.stage) = Len(Ev.cells)>>,
                    <<"row.tree", ObsStage = Ev.obs.stage>>,
-                   <<"row.measure_index", mstarts' = Ev.obs.mst>> >> \o TokChecks("row", Ev.obs.toks))
+                   <<"row.measure_index", mstarts' = Ev.obs.mst>>,
+                   \* C12: a malformed cell of a kern-like spine becomes an ERROR token that keeps the text verbatim
+                   <<"row.malformed_cells", \A i \in 1..Len(Ev.cells) :
+                        (Ev.cells[i].k = "err" /\ i <= Len(NewStage) /\ i <= Len(Ev.obs.toks) /\ stages'[NewStage[i].hdr[1]][NewStage[i].hdr[2]].cell.t \in KernLike)
+                           => (Ev.obs.toks[i][1] = "ERROR" /\ Ev.obs.toks[i][2] = Ev.cells[i].t)>> >> \o TokChecks("row", Ev.obs.toks))
 TSurplus == /\ IsEvent("surplus") /\ Surplus(Ev.cells) /\ UNCHANGED snap0
             /\ Note(<< <<"surplus.rejected", Ev.obs.raised>> >>)
 \* end of the import: totals of the real document
@@ -181,6 +185,7 @@ CallChecks(e) ==
     [] e.op = "iterpairs"  -> << <<"iterate.two_iterators", IF M = 0 THEN ~e.res.ok ELSE e.res.ok /\ e.res.v = [j \in 1..M |-> <<j, j>>]>> >>
     [] e.op = "mcount"     -> << <<"measures_count", IF M = 0 THEN ~e.res.ok ELSE e.res.ok /\ e.res.v = M>> >>
     [] e.op = "opaque"     -> <<>>                                                        \* a call only watched for purity
+    [] e.op = "flag"       -> << <<e.name, e.value>> >>                                   \* a comparison between two REAL objects made by the harness
     [] OTHER -> << <<"unknown_op", FALSE>> >>
 (* ----------------------- transposition (C15) ---------------------------- *)
 \* e = [iv, up, ref, res, back, src_after]: res = dumps(to_transposed(doc)), back = dumps of transposing the result back,
